@@ -1,18 +1,41 @@
 #!/bin/bash
-# scripts/mutant.sh <patch.diff> <Cxx> [<Cyy> ...] : apply a property-breaking change to /repo, run the quick checks, undo it.
+# scripts/mutant.sh <patch.diff> <Cxx> [<Cyy> ...] : run quick checks against /repo + a property-breaking change.
+# Default mode leaves /repo untouched: the patched files are produced in a scratch directory and laid over /repo's
+# paths by the same build overlay the checks already use (VERIF_PATCHED), outputs go to a scratch VERIF_OUT, so runs
+# can go on in parallel and never overwrite committed evidence. MUT_INPLACE=1 applies the patch to /repo itself
+# (git apply / run / git checkout), exactly as a user of the checks would meet it.
 # prints DETECTED/MISSED per check; exit 0 iff at least one check detected it.
 patch=$(readlink -f "$1"); shift
-cd /repo || exit 2
-if [ -n "$(git status --porcelain)" ]; then echo "/repo not clean"; exit 2; fi
-git apply "$patch" || { echo "patch does not apply: $patch"; exit 2; }
 det=1
-for id in "$@"; do
-  out=$(cd /verif && ./run.sh $id ${MUT_TIER:-quick} 2>&1); rc=$?
-  if [ $rc -eq 1 ] && echo "$out" | grep -q "^VIOLATION property=$id"; then
-    echo "DETECTED $id $(echo "$out" | grep -m1 '^  ' | cut -c1-220)"; det=0
+report() { # id rc out
+  if [ "$2" -eq 1 ] && echo "$3" | grep -q "^VIOLATION property=$1"; then
+    echo "DETECTED $1 $(echo "$3" | grep -m1 '^  ' | cut -c1-220)"; det=0
   else
-    echo "MISSED $id rc=$rc $(echo "$out" | tail -2 | cut -c1-200 | tr '\n' ' ')"
+    echo "MISSED $1 rc=$2 $(echo "$3" | tail -2 | cut -c1-200 | tr '\n' ' ')"
   fi
+}
+if [ "${MUT_INPLACE:-0}" = 1 ]; then
+  cd /repo || exit 2
+  if [ -n "$(git status --porcelain)" ]; then echo "/repo not clean"; exit 2; fi
+  git apply "$patch" || { echo "patch does not apply: $patch"; exit 2; }
+  for id in "$@"; do
+    out=$(cd /verif && VERIF_OUT=$(mktemp -d /var/tmp/mutout.XXXX) ./run.sh $id ${MUT_TIER:-quick} 2>&1); rc=$?
+    report $id $rc "$out"
+  done
+  git checkout -- . ; git clean -fdq -- pkg plugin cmd staging 2>/dev/null
+  rm -rf /var/tmp/mutout.*
+  exit $det
+fi
+scratch=$(mktemp -d /var/tmp/mut.XXXXXX)
+mkdir -p $scratch/patched $scratch/out
+for f in $(grep -E '^(\+\+\+|---) [ab]/' "$patch" | sed -E 's/^(\+\+\+|---) [ab]\///' | sort -u); do
+  mkdir -p $scratch/patched/$(dirname $f)
+  [ -f /repo/$f ] && git -C /repo show HEAD:$f > $scratch/patched/$f 2>/dev/null
 done
-git checkout -- . ; git clean -fdq -- pkg plugin cmd staging 2>/dev/null
+(cd $scratch/patched && git apply --unsafe-paths "$patch" 2>$scratch/apply.err || patch -p1 -s < "$patch") || { echo "patch does not apply: $patch"; cat $scratch/apply.err; rm -rf $scratch; exit 2; }
+for id in "$@"; do
+  out=$(cd /verif && VERIF_PATCHED=$scratch/patched VERIF_OUT=$scratch/out ./run.sh $id ${MUT_TIER:-quick} 2>&1); rc=$?
+  report $id $rc "$out"
+done
+rm -rf $scratch
 exit $det
